@@ -38,6 +38,53 @@ pub const STATUS: Table = &[
     (0x0509, &["server-error-multiple-document-jobs-not-supported"]),
 ];
 
+/// IANA-registered status codes beyond RFC 8011 (RFC 3995/3996/3998, PWG 5100.7/.13/.16). Used only for the
+/// by-name rule: a library symbol carrying one of these names must carry this code.
+pub const STATUS_EXT: Table = &[
+    (0x0003, &["successful-ok-ignored-subscriptions"]),
+    (0x0005, &["successful-ok-too-many-events"]),
+    (0x0007, &["successful-ok-events-complete"]),
+    (0x0413, &["client-error-ignored-all-subscriptions"]),
+    (0x0414, &["client-error-too-many-subscriptions"]),
+    (0x0417, &["client-error-document-password-error"]),
+    (0x0418, &["client-error-document-permission-error"]),
+    (0x0419, &["client-error-document-security-error"]),
+    (0x041a, &["client-error-document-unprintable-error"]),
+    (0x041b, &["client-error-account-info-needed"]),
+    (0x041c, &["client-error-account-closed"]),
+    (0x041d, &["client-error-account-limit-reached"]),
+    (0x041e, &["client-error-account-authorization-failed"]),
+    (0x050a, &["server-error-printer-is-deactivated"]),
+    (0x050b, &["server-error-too-many-jobs"]),
+    (0x050c, &["server-error-too-many-documents"]),
+];
+
+/// IANA / CUPS operation ids beyond the ones the library knows (by-name rule only)
+pub const OPERATIONS_EXT: Table = &[
+    (0x000f, &["Reserved-for-a-future-operation"]),
+    (0x0013, &["Set-Printer-Attributes"]),
+    (0x0014, &["Set-Job-Attributes"]),
+    (0x0015, &["Get-Printer-Supported-Values"]),
+    (0x0016, &["Create-Printer-Subscriptions"]),
+    (0x0017, &["Create-Job-Subscriptions"]),
+    (0x0018, &["Get-Subscription-Attributes"]),
+    (0x0019, &["Get-Subscriptions"]),
+    (0x001a, &["Renew-Subscription"]),
+    (0x001b, &["Cancel-Subscription"]),
+    (0x001c, &["Get-Notifications"]),
+    (0x0022, &["Enable-Printer"]),
+    (0x0023, &["Disable-Printer"]),
+    (0x0033, &["Cancel-Document"]),
+    (0x0034, &["Get-Document-Attributes"]),
+    (0x0035, &["Get-Documents"]),
+    (0x0038, &["Cancel-Jobs"]),
+    (0x0039, &["Cancel-My-Jobs"]),
+    (0x003a, &["Resubmit-Job"]),
+    (0x003b, &["Close-Job"]),
+    (0x003c, &["Identify-Printer"]),
+    (0x003d, &["Validate-Document"]),
+];
+
 pub const OPERATIONS: Table = &[
     (0x0002, &["Print-Job"]),
     (0x0003, &["Print-URI"]),
